@@ -376,6 +376,34 @@ func (en *Engine) checkProperty(id, tier, verif, workdir string, t0 time.Time) i
 			}
 		}
 	}
+	if tier == "thorough" && violations == 0 {
+		// bounded spec validation (never counted as proof): the replay harnesses of every unit family of this
+		// property run against the tree under check; they compare the real code with executable renderings of the
+		// specifications (native range, reference interpreter, go/types, expected sample output).
+		fams := map[string]bool{}
+		if ps.Replay != "" {
+			fams[ps.Replay] = true
+		}
+		for _, n := range fnNames {
+			fams[familyFor(n, ps.Replay)] = true
+		}
+		for _, fam := range sortedKeys(fams) {
+			if fam == "" {
+				continue
+			}
+			if _, done := outcomes[fam]; !done {
+				outcomes[fam] = en.runReplayFamily(fam, id, verif)
+			}
+			boundedRuns = append(boundedRuns, "spec validation "+fam+": "+trunc(outcomes[fam], 300))
+			if strings.HasPrefix(outcomes[fam], "REPRODUCED") {
+				violations++
+				exit = 1
+				name := "spec-validation[" + fam + "]"
+				path := en.writeReplay(en.outDir, id, name, []Failure{{Name: name, Base: name, Verdict: "the real code disagrees with the executable specification on a concrete input", Solver: "go test", Output: outcomes[fam], Kind: "bounded"}}, fam, outcomes[fam])
+				fmt.Printf("VIOLATION property=%s replay=%s obligation=%s\n", id, path, name)
+			}
+		}
+	}
 	if exit == 0 && len(undecided) > 0 {
 		// undecided obligations are not violations; the bounded stand-in explored the affected units and found
 		// nothing, so the property held on everything explored. Vacuity problems are errors of the machinery.
